@@ -1,44 +1,54 @@
-(* C06: which cues exist.  A snapshot that shows visible text gets a cue (nothing is dropped); a snapshot that shows none gets no
-   cue — unless a paragraph survives the white-space test only because of its tags (recorded finding tags-only-cue, trigger
-   trig_tags_only). *)
+(* C06: which cues exist.  Every cue the writers write holds visible text; a snapshot that shows visible text gets a cue (nothing is
+   dropped); a snapshot that shows none gets no cue (the repaired blank test looks at the text without its tags). *)
 From TT Require Import Model.Doc Gen.StyleTables Model.Isd Model.SigTimes Model.TimeCode Model.IsdFilters Gen.CueTables Model.CueWriter.
-From TT Require Import Model.CueTriggers Spec.IsdSpec Proofs.C06.Filters Proofs.C06.Inline Proofs.C06.Loop Proofs.C06.Text.
+From TT Require Import Model.CueTriggers Spec.IsdSpec Proofs.C06.Filters Proofs.C06.Inline Proofs.C06.Strip Proofs.C06.Loop Proofs.C06.Text.
 
-Lemma not_blank_visc t : only_whitespace t = false -> visc t <> [].
-Proof.
-  unfold only_whitespace, visc. induction t as [|c t IH]; [discriminate|]. cbn [forallb filter]. unfold visible at 1.
-  destruct (py_isspace c); cbn [negb andb]; [exact IH | discriminate].
-Qed.
-Lemma trig_tags_only_app x y : trig_tags_only (x ++ y) = trig_tags_only x || trig_tags_only y.
-Proof. unfold trig_tags_only. apply existsb_app. Qed.
+Lemma nonblank_visc c : nonblank c -> visc (cue_chars c) <> [].
+Proof. unfold nonblank. intros H E. apply only_whitespace_visc in E. rewrite E in H. discriminate. Qed.
 
-Theorem group_exists sees_all fs t next regions cs :
-  group_ok sees_all fs t next regions cs -> snapshot_shape regions = true -> sees_all (apply_filters fs regions) = true ->
-  (visc (flat_map leaves_text regions) <> [] -> cs <> []) /\
-  (visc (flat_map leaves_text regions) = [] -> trig_tags_only cs = false -> cs = []).
+Theorem group_exists blank sees_all fs t next regions cs :
+  group_ok blank sees_all fs t next regions cs -> snapshot_shape regions = true -> sees_all (apply_filters fs regions) = true ->
+  (visc (flat_map base_text regions) <> [] -> cs <> []) /\
+  (visc (flat_map base_text regions) = [] -> cs = []).
 Proof.
-  intros [_ Ht] Hs Hok. specialize (Ht Hs Hok). split.
+  intros (_ & Hk & Ht) Hs Hok. specialize (Ht Hs Hok). split.
   - intros Hne ->. apply Hne. rewrite <- Ht. reflexivity.
-  - intros He Htr. rewrite He in Ht. destruct cs as [|c cs]; [reflexivity|]. exfalso.
+  - intros He. rewrite He in Ht. destruct cs as [|c cs]; [reflexivity|]. exfalso.
     cbn [flat_map] in Ht. rewrite visc_app in Ht. apply app_eq_nil in Ht as [Hc _].
-    unfold trig_tags_only in Htr. cbn [existsb] in Htr. apply orb_false_iff in Htr as [Htr _].
-    exact (not_blank_visc _ Htr Hc).
+    inversion Hk as [|? ? [_ Kc] _]; subst. exact (nonblank_visc c Kc Hc).
 Qed.
 
 (* for the whole output of both writers *)
 Theorem srt_cues_exist fmt seq cs : srt_cues fmt seq = Ok cs ->
   cue_groups (fun _ _ regions group =>
                 snapshot_shape regions = true -> srt_sees_all (apply_filters srt_filters regions) = true ->
-                (visc (flat_map leaves_text regions) <> [] -> group <> []) /\
-                (visc (flat_map leaves_text regions) = [] -> trig_tags_only group = false -> group = [])) seq cs.
+                (visc (flat_map base_text regions) <> [] -> group <> []) /\
+                (visc (flat_map base_text regions) = [] -> group = [])) seq cs.
 Proof.
-  intros H. eapply cue_groups_impl; [|exact (srt_cues_groups fmt seq cs H)]. intros t n r x G Hs Hok. exact (group_exists _ _ _ _ _ _ G Hs Hok).
+  intros H. eapply cue_groups_impl; [|exact (srt_cues_groups fmt seq cs H)]. intros t n r x G Hs Hok. exact (group_exists _ _ _ _ _ _ _ G Hs Hok).
 Qed.
 Theorem vtt_cues_exist cfg fs seq cs css : vtt_filters cfg = Some fs -> vtt_cues cfg seq = Ok (cs, css) ->
   cue_groups (fun _ _ regions group =>
                 snapshot_shape regions = true -> vtt_sees_all (apply_filters fs regions) = true ->
-                (visc (flat_map leaves_text regions) <> [] -> group <> []) /\
-                (visc (flat_map leaves_text regions) = [] -> trig_tags_only group = false -> group = [])) seq cs.
+                (visc (flat_map base_text regions) <> [] -> group <> []) /\
+                (visc (flat_map base_text regions) = [] -> group = [])) seq cs.
 Proof.
-  intros Hfs H. eapply cue_groups_impl; [|exact (vtt_cues_groups cfg fs seq cs css Hfs H)]. intros t n r x G Hs Hok. exact (group_exists _ _ _ _ _ _ G Hs Hok).
+  intros Hfs H. eapply cue_groups_impl; [|exact (vtt_cues_groups cfg fs seq cs css Hfs H)]. intros t n r x G Hs Hok. exact (group_exists _ _ _ _ _ _ _ G Hs Hok).
+Qed.
+
+(* every cue of the output holds a character that is not white space — for every snapshot sequence, no hypothesis *)
+Lemma cue_groups_forall (P : cue -> Prop) (R : Q -> option Q -> list elem -> list cue -> Prop) : (forall t n r cs, R t n r cs -> Forall P cs) -> forall seq cs, cue_groups R seq cs -> Forall P cs.
+Proof. intros H seq cs G. induction G; [constructor|]. apply Forall_app. split; [eapply H; eassumption | assumption]. Qed.
+Theorem srt_cues_nonblank fmt seq cs : srt_cues fmt seq = Ok cs -> Forall (fun c => visc (cue_chars c) <> []) cs.
+Proof.
+  intros H. apply (cue_groups_forall _ _ (fun t n r x (G : group_ok srt_blank srt_sees_all srt_filters t n r x) =>
+    Forall_impl _ (fun c (K : kept srt_blank c) => nonblank_visc c (proj2 K)) (proj1 (proj2 G))) seq cs (srt_cues_groups fmt seq cs H)).
+Qed.
+Theorem vtt_cues_nonblank cfg seq cs css : vtt_cues cfg seq = Ok (cs, css) -> Forall (fun c => visc (cue_chars c) <> []) cs.
+Proof.
+  intros H. assert (Hfs : exists fs, vtt_filters cfg = Some fs)
+    by (unfold vtt_cues in H; destruct (vtt_filters cfg) as [fs|]; [eexists; reflexivity | discriminate]).
+  destruct Hfs as [fs Hfs].
+  apply (cue_groups_forall _ _ (fun t n r x (G : group_ok vtt_blank vtt_sees_all fs t n r x) =>
+    Forall_impl _ (fun c (K : kept vtt_blank c) => nonblank_visc c (proj2 K)) (proj1 (proj2 G))) seq cs (vtt_cues_groups cfg fs seq cs css Hfs H)).
 Qed.
